@@ -291,6 +291,34 @@ def fam_special(tier, route, lo, hi):
                      mode='eq', rhs=['+', F('LEN', s), F('LEN', t)])
 
 
+# characters outside the Basic Multilingual Plane: one character each, for LEN
+# and for the functions that count with it
+A_ASTRAL = ('a', '\U0001F600', '\U0001D49C')
+
+
+def fam_astral(tier, route, lo, hi):
+    for s in gt.texts(3, A_ASTRAL):
+        yield call_case('special', 'LEN', [s], s)
+        yield call_case('special', 'LEFT', [s, 1], s)
+        yield call_case('special', 'RIGHT', [s, 2], s)
+        yield call_case('special', 'MID', [s, 2, 1], s)
+        yield call_case('special', 'FIND', ['\U0001F600', s], s)
+        yield call_case('special', 'REPLACE', [s, 2, 1, 'X'], s)
+        for n in range(0, len(s) + 1):
+            lhs = ['&', F('LEFT', s, n),
+                   F('RIGHT', s, ['-', F('LEN', s), n])]
+            yield mk('id-left-right', lhs,
+                     {'identity:left-right', 'text:astral'}, s, mode='const',
+                     const=s)
+            yield mk('id-mid-left', F('MID', s, 1, n),
+                     {'identity:mid-left', 'text:astral'}, s, mode='eq',
+                     rhs=F('LEFT', s, n))
+        for t in ('a', '\U0001F600'):
+            yield mk('id-len-concat', F('LEN', ['&', s, t]),
+                     {'identity:len-concat', 'text:astral'}, True,
+                     mode='eq', rhs=['+', F('LEN', s), F('LEN', t)])
+
+
 def fam_trim(tier, route, lo, hi):
     for s in trim_texts(tier, route)[lo:hi]:
         yield call_case('trim', 'TRIM', [s], s)
@@ -548,7 +576,7 @@ def fam_cellref(tier, route, lo, hi):
 
 
 FAMILIES = {
-    'lowerfix': fam_lowerfix, 'special': fam_special,
+    'lowerfix': fam_lowerfix, 'special': fam_special, 'astral': fam_astral,
     'unary': fam_unary, 'trim': fam_trim, 'leftright': fam_leftright,
     'mid': fam_mid, 'find': fam_find, 'replace': fam_replace,
     'pair': fam_pair, 'idlr': fam_idlr, 'idml': fam_idml, 'conv': fam_conv,
@@ -585,6 +613,7 @@ def plan(tier):
                 shards.append({'fam': fam, 'route': route, 'lo': lo,
                                'hi': min(sizes[fam], lo + step)})
         shards.append({'fam': 'special', 'route': route, 'lo': 0, 'hi': 1})
+        shards.append({'fam': 'astral', 'route': route, 'lo': 0, 'hi': 1})
         nlow = gt.count(3, len(A_LOWER))
         for lo in range(0, nlow, 90):
             shards.append({'fam': 'lowerfix', 'route': route, 'lo': lo,
